@@ -32,6 +32,8 @@ def machines():
     yield "no-free-input", build({"s": ("input", []), "ns": ("not", ["s"]), "y": ("buf", ["s"])}, outputs=["ns", "y"]), {"ns": "s"}
     # a shift chain: `a` is an input that is also an output - the state *input* of one pair and the state *output* of the next
     yield "chained-pairs-through-a-feed-through", build({"x": ("input", []), "a": ("input", []), "b": ("input", []), "o": ("xor", ["a", "b", "x"]), "y": ("and", ["a", "b"])}, outputs=["o", "a", "y"]), {"o": "a", "a": "b"}
+    # a plain (non-state) input that is also marked as an output: its per-step copies stay free inputs
+    yield "free-input-that-is-an-output", build({"x": ("input", []), "s": ("input", []), "ns": ("xnor", ["x", "s"]), "y": ("or", ["x", "s"])}, outputs=["ns", "y", "x"]), {"ns": "s"}
     yield "state-out-used-as-output", build({"x": ("input", []), "s": ("input", []), "ns": ("or", ["x", "s"])}, outputs=["ns"]), {"ns": "s"}
 
 
